@@ -49,7 +49,7 @@ def mandatory_bins(tier):
     b = ["blocks_" + "+".join(l) for l in GB.all_block_lists()]
     b += ["session_key_drawn", "all_blocks_wrap_the_mac_key", "pass_through_rewrite", "rewrite_known_blocks_same_key", "creations_without_key", "counting_rng",
           "ecc_wrap", "ecc_rewrite_same_object", "ephemeral_points_distinct", "splice_accepted_when_keys_equal", "splice_body_under_first_key", "splice_body_under_second_key", "splice_triple", "splice_partial_decryptor_set", "splice_unopened_block_between", "read_with_encrypt_only_ecc_encryptor", "content_of_a_read_file_rewritten_under_a_fresh_key", "encrypted_component_under_the_wrapped_key", "foreign_blocks_of_unknown_kind"]
-    b += ["splice_%s_%s" % (a, c) for a in GB.KINDS for c in GB.KINDS if a != c]
+    b += ["splice_%s_%s" % (a, c) for a in GB.KINDS for c in GB.KINDS] + ["splice_two_ecc_blocks_for_two_selectors"]
     return b
 
 
@@ -373,13 +373,21 @@ def model_block(rng, s, key):
 def run_splice(ns, ctx, spec):
     B = ns.bec2file
     rng = ctx.rng
-    combos = [(a, c) for a in GB.KINDS for c in GB.KINDS if a != c]
+    # pairs of different kinds, and pairs of the SAME kind (two ECC blocks for two recipients or for one, two customer-key /
+    # update blocks under one wrapping key): the reader can open both, so differing keys must be noticed there too
+    combos = [(a, c) for a in GB.KINDS for c in GB.KINDS if a != c] + [(a, a) for a in GB.KINDS]
     triples = [k for k in GB.all_block_lists() if len(k) == 3]
     for j in range(spec["n"]):
         idx = spec["i"] + 16 * j
         triple = idx % 5 == 4
         kinds = triples[idx % len(triples)] if triple else combos[idx % len(combos)]
         specs = GB.gen_blocks(rng, kinds)
+        if len(kinds) == 2 and kinds[0] == kinds[1]:
+            if kinds[0] == "ecc" and idx % 2:
+                specs[1]["sel"] = (specs[0]["sel"] + rng.randrange(1, 4)) % 4  # two recipients
+                ctx.bin("splice_two_ecc_blocks_for_two_selectors")
+            else:
+                specs[1] = dict(specs[0])  # same wrapping key / recipient: one decryptor opens both
         case = G.gen_case(rng, ncomp=rng.choice((0, 1, 2)))
         k1, k2 = rng.randbytes(16), rng.randbytes(16)
         if idx % 7 == 0:  # keys that differ in a single bit
